@@ -107,6 +107,17 @@ example : (0 : Int) ≤ blockW ⟨600, none, .sec ⟨0, 0, 0, 0⟩ []⟩ ∧ Ite
 theorem C10_horizontal_pair_is_css {α : Type} (vs : List α) :
     Gomjml.Lengths.hsel vs = (Gomjml.Lengths.cssSides vs).map (fun s => (s.2.2.2, s.2.1)) := Gomjml.Lengths.hsel_css vs
 
+/-- **how the values of a shorthand are separated does not matter**: values made of plain bytes (digits, points, signs, unit
+    letters, `%`), any ASCII white space in front of the first, any non-empty ASCII white space between two, any behind the
+    last — `strings.Fields` returns exactly the values.  (The width documents write the same lengths with a tab, two blanks,
+    blanks around; this is why they must give the same widths.) -/
+theorem C10_shorthand_spelling (ws : List (List UInt8 × List UInt8)) (lead : List UInt8)
+    (hl : ∀ b ∈ lead, Gomjml.Lengths.isAsciiSp b = true)
+    (hw : ∀ p ∈ ws, p.1 ≠ [] ∧ (∀ b ∈ p.1, Gomjml.Lengths.plain b = true) ∧ (∀ b ∈ p.2, Gomjml.Lengths.isAsciiSp b = true))
+    (hs : ∀ i, i + 1 < ws.length → ∀ p, ws[i]? = some p → p.2 ≠ []) :
+    Gomjml.Lengths.fields (lead ++ ws.flatMap (fun p => p.1 ++ p.2)) = ws.map (·.1) :=
+  Gomjml.Lengths.fields_words ws lead hl hw hs
+
 /-- **where an authored length becomes a number** (regenerated): every call, outside package `styles`, of a `styles` length
     parser or of a `strconv` / `Sscan` number parser, by function and number of calls.  The width computations of section,
     wrapper, hero and column read the padding shorthand through `ParseHorizontalSpacing` (one to four values); a width computed
